@@ -8,7 +8,7 @@ from . import smt
 from .smt import (mk_and, mk_or, mk_not, mk_eq, mk_ite, mk_concat, mk_add, mk_sub, mk_lt, mk_le,
                   mk_select, mk_store, mk_implies, str_lit, int_lit, TRUE, FALSE)
 from .types import SV, NOCONST, parse_ty, atom_kind, ANY, T_STR, T_INT, T_BOOL, T_NONE
-from .values import ValueOps, Unsupported, PathInfeasible, is_tag
+from .values import ValueOps, Unsupported, PathInfeasible, is_tag, RaisedExc
 from .evalexpr import ExprOps
 from .calls import CallOps, Return
 from .stmts import StmtOps, Break, Continue, Raised, PathEnd
@@ -662,10 +662,10 @@ class Engine(ValueOps, ExprOps, CallOps, StmtOps):
             outcome = 'error-obligation'
         except (Break, Continue):
             raise Unsupported('break/continue outside loop')
-        except Raised as r:
+        except (Raised, RaisedExc) as r:
             outcome = 'raise ' + r.exc
             spec = con.raises.get(r.exc)
-            if spec is None:
+            if r.exc not in con.raises:
                 self.st.oblige(FALSE, 'unexpected %s raised' % r.exc, r.lineno, kind='raises')
             else:
                 when = spec if isinstance(spec, str) else None
